@@ -3,6 +3,7 @@ package pokertable
 // C02 — a hand's seat numbers denote the same players from open to settlement.
 
 import (
+	"github.com/weedbox/pokerface"
 	"github.com/weedbox/pokertable/internal/verifrt"
 	"github.com/weedbox/pokertable/seat_manager"
 )
@@ -216,6 +217,45 @@ func VH_C02_Stable() {
 	for k := 0; k < m; k++ {
 		idx := st.GamePlayerIndexes[k]
 		verifrt.Assert(idx >= 0 && idx < len(st.PlayerStates) && st.PlayerStates[idx].PlayerID == ids[k], "entry k still denotes the same player")
+	}
+	verifrt.Reach("end")
+}
+
+// VH_C02_BackendCreate: the native backend creates the hand with exactly the player list it
+// is given — one hand entry per listed player, in order, starting with that player's stack —
+// or refuses; it never drops or reorders entries (the table's index list is built for the
+// list it handed over).
+func VH_C02_BackendCreate() {
+	m := verifrt.Cfg("m")
+	opts := pokerface.NewStardardGameOptions()
+	opts.Deck = pokerface.NewStandardDeckCards()
+	opts.Ante = 0
+	opts.Blind = pokerface.BlindSetting{Dealer: 0, SB: 1, BB: 2}
+	for i := 0; i < m; i++ {
+		pos := []string{}
+		if i == 0 {
+			pos = append(pos, Position_Dealer)
+		}
+		if (m == 2 && i == 0) || (m > 2 && i == 1) {
+			pos = append(pos, Position_SB)
+		}
+		if (m == 2 && i == 1) || (m > 2 && i == 2) {
+			pos = append(pos, Position_BB)
+		}
+		opts.Players = append(opts.Players, &pokerface.PlayerSetting{Bankroll: int64(verifrt.IntRangeI("bankroll", i, 0, 3)) * 10, Positions: pos})
+	}
+	listed := make([]*pokerface.PlayerSetting, m)
+	copy(listed, opts.Players)
+	gs, err := NewNativeGameBackend().CreateGame(opts)
+	if err == nil {
+		verifrt.Reach("created")
+		verifrt.Assert(gs != nil && len(gs.Players) == m, "one hand entry per listed player")
+		for i := 0; i < m; i++ {
+			verifrt.Assert(gs.Players[i].Idx == i && gs.Players[i].Bankroll == listed[i].Bankroll, "entry i is the i-th listed player and starts with that player's stack")
+		}
+	} else {
+		verifrt.Reach("refused")
+		verifrt.Assert(gs == nil, "a refused creation returns no hand")
 	}
 	verifrt.Reach("end")
 }
